@@ -64,6 +64,10 @@ def gen_library(tape, need_stage=False):
             sc["tstep"] = tape.choice([t for t in (2, 3, 4, 6, 12, 24) if t > sc["pstep"]])
         sc["tstart"] = pstart + tape.choice([0, 0, 0, 3])
         sc["t_info"] = tape.choice(["in", "out", "both"])
+        if not sc["wsum"] and tape.chance(1, 3):
+            # the documented TimeTrigger(start=None): it takes its start from its input (the producer's start) and has
+            # no time of its own before the connect phase
+            sc["tstart"], sc["t_start_none"], sc["t_info"] = pstart, True, tape.choice(["in", "both"])
     pushable = sc["trigger"] or not sc["wsum"]           # the last stage publishes by itself
     cons = []
     # (a pull-based component read through several consumer links is the recorded finding
@@ -116,7 +120,10 @@ def gen_library(tape, need_stage=False):
         else:
             sc["end"] = min(sc["end"], last)
     # the reader knows its time only after reading the file: the composition start is then given explicitly
-    sc["start_given"] = prod == "csv" or tape.chance(1, 3)
+    # (... unless another time component starts together with the file: the automatic start is then right anyway)
+    others = [c["start"] for c in cons if "start" in c] + ([sc["tstart"]] if sc["trigger"] and not sc.get("t_start_none") else [])
+    auto_ok = (prod != "csv" and not (sc.get("t_start_none") and not others)) or (others and min(others) == pstart)
+    sc["start_given"] = (not auto_ok) or tape.chance(1, 3)
     sc["listing"] = tape.shuffle(list(range(8)))
     return sc
 
@@ -198,7 +205,7 @@ def run_library(sc):
         ii = fm.Info(time=None, grid=fm.NoGrid(), units=None)
         oi = fm.Info(time=None, grid=fm.NoGrid(), units=pu)
         kw = {"in": {"in_info": ii}, "out": {"out_info": oi}, "both": {"in_info": ii, "out_info": oi}}[sc["t_info"]]
-        trig = TimeTrigger(start=T(sc["tstart"]), step=timedelta(hours=sc["tstep"]), **kw)
+        trig = TimeTrigger(start=None if sc.get("t_start_none") else T(sc["tstart"]), step=timedelta(hours=sc["tstep"]), **kw)
         trig.with_name("trig")
         comps.append(trig)
         timed.append(("trig", trig))
